@@ -80,6 +80,23 @@ func genC18(t *rapid.T) C18Case {
 			c.Inputs = append(c.Inputs, mkC05(kind, "trailing-tokens", in))
 			continue
 		}
+		if rapid.IntRange(0, 9).Draw(t, "longGlobals") == 0 {
+			// a globals file with a line that is rejected and many lines after it (whatever reads ahead of
+			// the parser is left with lines nobody takes)
+			var b strings.Builder
+			for j, k := 0, rapid.IntRange(0, 40).Draw(t, "goodLines"); j < k; j++ {
+				fmt.Fprintf(&b, "G%d = %d\n", j, j)
+			}
+			b.WriteString(rapid.SampledFrom([]string{"BAD", "X = ", "X = 1 2", "X = $v", "G0 = 1", "= 3", "X = 'open", "X = [1, "}).Draw(t, "badLine") + "\n")
+			for j, k := 0, rapid.SampledFrom([]int{0, 1, 5, 31, 32, 33, 34, 40, 64, 65, 100, 129, 300, 1100}).Draw(t, "moreLines"); j < k; j++ {
+				if j%7 == 3 {
+					b.WriteString("\n// comment\n")
+				}
+				fmt.Fprintf(&b, "H%d = 'v%d'\n", j, j)
+			}
+			c.Inputs = append(c.Inputs, mkC05("globals", "trailing-tokens", b.String()))
+			continue
+		}
 		c.Inputs = append(c.Inputs, genC05(t))
 	}
 	// bundles of several files, some of them broken (not the last one, not only the last one)
